@@ -215,7 +215,8 @@ def run(tier, seed, replay=None):
         by_module = {}
         for cmd, mod in sorted(cli.KNOWN_HANDLERS.items()):
             by_module.setdefault(mod, cmd)
-        handler_cmds = [f"{c} status" for c in by_module.values()] + [f"{c} --foo bar" for c in by_module.values()]
+        handler_cmds = [f"{c} status" for c in by_module.values()] + [f"{c} --foo bar" for c in by_module.values()] + \
+                       list(by_module.values()) + [f"{c} a b c" for c in by_module.values()]
         commands = CURATED + handler_cmds
         out.extra["handler_modules"] = len(by_module)
 
@@ -242,6 +243,13 @@ def run(tier, seed, replay=None):
                 q = {"k": "analyze", "command": f"{cmd} status", "config": rng.choice(CONFIGS), "cwd": world.cwds["rules"]["path"], "remote": False}
                 hist = [q] + hist      # loaded, evicted, loaded again
                 jobs.append(("evict", hist, [q, q], []))
+            # priming: other shapes of the same command first (a per-command memo would show here)
+            for mod, cmd in mods:
+                plain = world.cwds["plain"]["path"]
+                hist = [{"k": "analyze", "command": c, "config": cfgt, "cwd": plain, "remote": False}
+                        for c, cfgt in ((cmd, ""), (f"{cmd} a b c", CONFIGS[1]), (f"{cmd} status", CONFIGS[2]))]
+                q = {"k": "analyze", "command": f"{cmd} status", "config": "", "cwd": plain, "remote": False}
+                jobs.append(("prime", hist, [q, q], []))
             # logging failure in the middle, mode switches around it
             for mode in ("claude", "gemini", "cursor"):
                 q = {"k": "main", "stdin": main_stdin(mode, "git push", world.cwds["logok"]["path"]), "cwdn": "logok"}
@@ -359,9 +367,9 @@ def run(tier, seed, replay=None):
     if mism:
         out.disagreements.append({"correspondence": "extracted OCaml model <-> vm_compute in Coq", "detail": mism[:5]})
     out.extra["rule"] = (
-        "random histories of 1..400 calls (70% analyze over one command per handler module x 2 argument shapes + 24 curated compound "
+        "random histories of 1..400 calls (70% analyze over one command per handler module x 4 argument shapes (bare, 1, 2, 3 words) + 24 curated compound "
         "commands, 4 configs, 6 cwds, 10% remote; 16% whole main() runs in the three host shapes over cwds whose .dippy logs to a good "
         "file, /dev/full, a NUL path, a path below a file; MODE assignments; direct configure_logging/log_decision/check_command), "
-        "with and without a mode flag; systematic: every handler module loaded, evicted by 40 others, asked again; logging-failure "
+        "with and without a mode flag; systematic: every handler module loaded, evicted by 40 others, asked again; every handler command primed with its other shapes and configs; logging-failure "
         "sandwiches per host.  distinct = distinct (history, query, flags); every case is non-trivial (history of at least one call)")
     return out
